@@ -91,6 +91,18 @@ func build() {
 			f := Func{FeatureType: ft, Fn: fn, DataType: pt.Elem()}
 			if sf, ok := cmdByJSON[string(fn)]; ok {
 				f.CmdField = sf.Name
+			} else {
+				// the function is registered under a name no command element carries: a peer can only send
+				// the element of that data type, so that is what the checks send (and the stack has to serve)
+				for i := 0; i < cmdT.NumField(); i++ {
+					if cmdT.Field(i).Type == pt {
+						if f.CmdField != "" {
+							f.CmdField = ""
+							break
+						}
+						f.CmdField = cmdT.Field(i).Name
+					}
+				}
 			}
 			if pt.Implements(updaterType) {
 				n, idx := 0, -1
